@@ -897,7 +897,7 @@ func (rw *rewriter) instrument(f *ast.File) int {
 			}
 		case *ast.SendStmt:
 			if rw.isChan(st.Chan) {
-				return []ast.Stmt{simrtCall("Send", st.Chan, st.Value)}
+				return []ast.Stmt{&ast.ExprStmt{X: &ast.CallExpr{Fun: &ast.CallExpr{Fun: simrtFn("SendTo"), Args: []ast.Expr{st.Chan}}, Args: []ast.Expr{st.Value}}}}
 			}
 		case *ast.DeferStmt:
 			full, _ := rw.syncMethod(st.Call)
@@ -1079,7 +1079,7 @@ func (rw *rewriter) instrument(f *ast.File) int {
 						switch cm := cc.Comm.(type) {
 						case *ast.SendStmt:
 							recvChans = append(recvChans, ast.NewIdent("nil"))
-							one = &ast.IfStmt{Cond: &ast.CallExpr{Fun: simrtFn("TrySend"), Args: []ast.Expr{cm.Chan, cm.Value}}, Body: &ast.BlockStmt{List: cc.Body}, Else: next}
+							one = &ast.IfStmt{Cond: &ast.CallExpr{Fun: &ast.CallExpr{Fun: simrtFn("TrySender"), Args: []ast.Expr{cm.Chan}}, Args: []ast.Expr{cm.Value}}, Body: &ast.BlockStmt{List: cc.Body}, Else: next}
 						case *ast.ExprStmt:
 							x := cm.X
 							for {
